@@ -425,6 +425,7 @@ pub fn run(tier: &str) -> i32 {
                     // a third of the scenarios with statement caching on and a cache smaller than
                     // the number of distinct named statements the clients prepare
                     cache: if i % 3 == 2 { 3 } else { 0 },
+                    same_app: i % 4 == 1,
                 },
                 i % 3 == 1,
             )
